@@ -22,7 +22,23 @@ def run(chk, tier, seed):
                        "indentation is judged only while loop nesting never goes negative; PDP11 0xC8 at end of line, trailing bytes "
                        "after the end marker, empty input and 3-byte little-endian lines are unspecified"]
     bc.model_check(chk, ["Basic_be_tok.cfg", "Basic_le_tok.cfg"])
-    cases = list(bc.gen_tokens_sweep(tabs, quick)) + list(bc.gen_linenums(quick)) + list(bc.gen_listo(tabs, quick)) + list(bc.gen_strings(quick))
+    # strings, line-number references (0x8D) and loop tokens on one line: every 5-byte line body over {" 0x8D FOR NEXT A :} (TLC),
+    # listed with LISTO 7 by the real binary
+    str_cases = []
+    for cfg, d in (("Basic_be_str.cfg", "6502"), ("Basic_le_str.cfg", "Z80")):
+        r = common.tlc("Basic", cfg, timeout=3000)
+        chk.add_tlc(cfg, r)
+        if r.violated:
+            chk.violation("model:%s:%s" % (cfg, r.violated), "Basic.tla (%s): %s\n%s" % (cfg, r.violated, "\n".join(r.cex[:30])), dict(cfg=cfg))
+        inputs = sorted({tuple(c) for c in r.cases if len(c) >= 20})
+        if quick:
+            hot = [x for x in inputs if 141 in x and 34 in x and (227 in x or 237 in x)]
+            rest = [x for x in inputs if x not in set(hot)]
+            rnd.shuffle(rest)
+            inputs = hot + rest[:600]
+        for k, inp in enumerate(inputs):
+            str_cases.append(("str-%d" % k, d if k % 4 else ("ARM" if d == "6502" else "Windows"), 7, bytes(inp)))
+    cases = str_cases + list(bc.gen_tokens_sweep(tabs, quick)) + list(bc.gen_linenums(quick)) + list(bc.gen_listo(tabs, quick)) + list(bc.gen_strings(quick))
     with common.Scratch("c03") as scratch:
         def do(ic):
             i, (label, d, listo, data) = ic
@@ -34,9 +50,28 @@ def run(chk, tier, seed):
                                 rc=o.rc if o.rc is not None else -9, rc2=o2.rc if o2.rc is not None else -9))
             return evs
         events = [e for evs in common.pmap(do, list(enumerate(cases))) for e in evs]
+        # a program's listing is its own: listed after a program that leaves loops open (or closes loops it never opened), with
+        # every LISTO value, it is what it is alone
+        for d in ("6502", "Z80", "ARM", "Windows"):
+            tab = tabs[bc.CANON.get(d, d)]
+            kF, kN, kR, kU = (bc.kwbyte(tab, k) for k in ("FOR", "NEXT", "REPEAT", "UNTIL"))
+            progs = {"open": bc.prog(d, [(10, [kF, 73, 58, kR]), (20, [0xF1, 65])]), "close": bc.prog(d, [(10, [kN, 58, kU]), (20, [0xF1, 66])]),
+                     "loop": bc.prog(d, [(10, [kF, 73]), (20, [kR]), (30, [0xF1, 67]), (40, [kU, 73]), (50, [kN])])}
+            paths = {}
+            for k, dat in progs.items():
+                paths[k] = os.path.join(scratch, "own-%s-%s.bbc" % (d, k))
+                open(paths[k], "wb").write(dat)
+            for listo in range(8):
+                single = {k: common.run([exe, "--dialect", d, "--listo=%d" % listo, paths[k]]) for k in progs}
+                for seq in (("open", "loop"), ("close", "loop"), ("loop", "loop"), ("open", "close", "loop")):
+                    o = common.run([exe, "--dialect", d, "--listo=%d" % listo] + [paths[k] for k in seq])
+                    events.append(dict(e="multi", label="own-%s-%d" % ("+".join(seq), listo), dialect=d, listo=listo, out=list(o.out), rc=o.rc if o.rc is not None else -9,
+                                       outs=[list(single[k].out) for k in seq], rcs=[single[k].rc for k in seq], inp=[ord(c) for c in "+".join(seq)]))
         for e in events:
             if e["e"] == "run":
                 chk.case((e["dialect"], e["listo"], bytes(e["inp"])), nontrivial=e["rc"] == 0 and len(e["out"]) > 0)
+            elif e["e"] == "multi":
+                chk.case(("own", e["label"], e["dialect"]))
             else:
                 chk.case(("same", e["label"], e["dialect"], e["listo"]))
         chk.sample(dict(label=events[0]["label"], dialect=events[0]["dialect"], inp=bytes(events[0]["inp"])[:40].hex(), out=bytes(events[0]["out"])[:80].decode("latin1")))
